@@ -150,20 +150,20 @@ pub fn spec(id: &str) -> Option<PropSpec> {
         "C05" => PropSpec {
             id: "C05",
             level: "exploration",
-            families: vec![(Family::C05, 70), (Family::C13, 30)],
-            quick_runs: 24_000,
+            families: vec![(Family::C05, 60), (Family::C13, 25), (Family::C13X, 15)],
+            quick_runs: 28_000,
             thorough_runs: 2_000_000,
-            rule: "one run = 1..limit+3 sender tasks (QoS1/QoS2 publishes, subscribe/unsubscribe in client roles, ready()) against a send limit 1..4 set through config, handshake override, peer Receive Maximum or CONNACK; peer acknowledges singly or batched; waiting futures cancelled; write stalls toggled; oracle counts on the wire: QoS1/2 PUBLISH written minus final acks the peer has SENT must never exceed the limit; distinct = distinct abstract history signature; non-trivial = the window was full at least once while more operations than the limit were started",
+            rule: "Part of the runs come from the enumerating family C13X (every short sequence of start / drop / acknowledge / back-pressure events against three senders, see C13), judged by the same oracle; one run = 1..limit+3 sender tasks (QoS1/QoS2 publishes, subscribe/unsubscribe in client roles, ready()) against a send limit 1..4 set through config, handshake override, peer Receive Maximum or CONNACK; peer acknowledges singly or batched; waiting futures cancelled; write stalls toggled; oracle counts on the wire: QoS1/2 PUBLISH written minus final acks the peer has SENT must never exceed the limit; distinct = distinct abstract history signature; non-trivial = the window was full at least once while more operations than the limit were started",
             nontrivial: nt_c05,
             assumptions: base,
         },
         "C06" => PropSpec {
             id: "C06",
             level: "exploration",
-            families: vec![(Family::C06, 80), (Family::C14, 20)],
-            quick_runs: 24_000,
+            families: vec![(Family::C06, 68), (Family::C14, 17), (Family::C13X, 15)],
+            quick_runs: 28_000,
             thorough_runs: 2_000_000,
-            rule: "one run = sends with automatic and caller-chosen ids acknowledged by a peer that is correct or injects one deviation (reordered id, wrong ack type, duplicate, unknown id, unsolicited); reference model = FIFO of outstanding exchanges seen on the wire; oracle: Ok only after a matching ack of the right type was sent, contents equal, ids of outstanding sends distinct and non-zero, deviation ends the connection, correct peer never does; distinct = distinct abstract history signature; non-trivial = a deviation was actually delivered, or two or more exchanges were outstanding together",
+            rule: "Part of the runs come from the enumerating family C13X (every short sequence of start / drop / acknowledge / back-pressure events against three senders, see C13), judged by the same oracle; one run = sends with automatic and caller-chosen ids acknowledged by a peer that is correct or injects one deviation (reordered id, wrong ack type, duplicate, unknown id, unsolicited); reference model = FIFO of outstanding exchanges seen on the wire; oracle: Ok only after a matching ack of the right type was sent, contents equal, ids of outstanding sends distinct and non-zero, deviation ends the connection, correct peer never does; distinct = distinct abstract history signature; non-trivial = a deviation was actually delivered, or two or more exchanges were outstanding together",
             nontrivial: nt_c06,
             assumptions: base,
         },
@@ -190,10 +190,10 @@ pub fn spec(id: &str) -> Option<PropSpec> {
         "C13" => PropSpec {
             id: "C13",
             level: "exploration",
-            families: vec![(Family::C13, 60), (Family::C05, 20), (Family::C08, 20)],
-            quick_runs: 60_000,
-            thorough_runs: 2_000_000,
-            rule: "as C05 plus a cooperative closing phase: the peer acknowledges everything it received, stalls are lifted; at final quiescence with fewer exchanges outstanding than the limit every started operation that was not cancelled must have completed (bounded liveness: nothing is left that could wake it); distinct = distinct abstract history signature; non-trivial = at least one operation was parked on the window or on back-pressure (window reached the limit) and a cancellation or ready() took part",
+            families: vec![(Family::C13, 36), (Family::C05, 12), (Family::C08, 12), (Family::C13X, 40)],
+            quick_runs: 100_000,
+            thorough_runs: 2_600_000,
+            rule: "two kinds of family. (1) C13X, enumeration: EVERY sequence of length 1..3 (thorough; quick: 1..2, length 4 in part) of external events over 27 letters - start the next operation of one of three senders, drop its pending operation, the peer acknowledges the oldest exchange, the transport stops / resumes taking writes (write back-pressure on / off); starting and dropping also 0, 1 or 2 task polls behind the previous letter, i.e. between an event and the wake-up it causes - in all four roles, for send windows of 1 and 2 and six sender kits (QoS 1 only; with ready(); with an exactly-once exchange; with a non-blocking send, a QoS 0 send and a future dropped unpolled; with caller-chosen identifiers that collide; with subscribe / unsubscribe (clients) or a streamed publish (servers)): 48 configurations x 27^len sequences, ordered by length; every letter is performed once the system has gone quiet unless it carries a poll delay; then the closing phase. (2) seeded families: as C05 plus a cooperative closing phase: the peer acknowledges everything it received, stalls are lifted; at final quiescence with fewer exchanges outstanding than the limit every started operation that was not cancelled must have completed (bounded liveness: nothing is left that could wake it); distinct = distinct abstract history signature; non-trivial = at least one operation was parked on the window or on back-pressure (window reached the limit) and a cancellation or ready() took part",
             nontrivial: nt_c13,
             assumptions: base,
         },
